@@ -169,6 +169,9 @@ def gen_rank(rnd: random.Random, rank: int, p: Dict[str, Any]) -> Dict[str, Any]
         tr["baseTimeNanoseconds"] = 1_700_000_000_000_000_000 + rank * rnd.choice([1000, 2_500_000, 4_000_000_017]) + rnd.choice([0, 999])
     if rnd.random() < 0.3:
         tr["deviceProperties"] = [{"id": 0, "name": "GPU", "totalGlobalMem": 1}]
+    if rnd.random() < 0.3:
+        # a hint for the viewer only: the unit in which it DISPLAYS times (ts / dur stay microseconds)
+        tr["displayTimeUnit"] = rnd.choice(["ms", "ns", "ns"])
     return tr
 
 
